@@ -22,10 +22,12 @@ class SimFSState:
     def __init__(self):
         self.files: dict[str, bytes] = {}
         self.dirs: set[str] = {'/'}
+        self.links: dict[str, str] = {}  # symbolic links to directories: link path -> (resolved) target
 
     def reset(self):
         self.files.clear()
         self.dirs = {'/'}
+        self.links = {}
 
 
 FS = SimFSState()
@@ -36,9 +38,34 @@ def _norm(p: str) -> str:
     return '/' + '/'.join(parts)
 
 
+def _resolve(p: str) -> str:
+    """What the operating system does with a spelling: components left to right, a symbolic link is followed
+    when it is met, and `..` is the parent of the directory *reached so far* (not of the spelling)."""
+    cur = '/'
+    for comp in _norm(p).split('/'):
+        if not comp:
+            continue
+        if comp == '..':
+            cur = cur.rsplit('/', 1)[0] or '/'
+        else:
+            cur = (cur if cur != '/' else '') + '/' + comp
+            hops = 0
+            while cur in FS.links and hops < 8:
+                cur = FS.links[cur]
+                hops += 1
+    return cur
+
+
 class SimPath:
+    """Keeps the spelling it was given (like pathlib: only '.' and empty components vanish, `parent` is lexical);
+    every file-system operation acts on what the spelling resolves to."""
+
     def __init__(self, *parts):
         self._p = _norm('/'.join(str(x) for x in parts))
+
+    @property
+    def _r(self):
+        return _resolve(self._p)
 
     def __str__(self):
         return self._p
@@ -76,57 +103,58 @@ class SimPath:
     def exists(self):
         c = ctx.cur
         c.stats.peer_calls.bump('fs.exists')
-        ans = self._p in FS.dirs or self._p in FS.files
+        ans = self._r in FS.dirs or self._r in FS.files
         f = c.fault_at('fs.exists')
         if f is not None and f['kind'] == 'mkdir-race' and not ans:
             # a concurrent actor creates the directory right after we answered "no"
-            p = self._p
+            p = self._r
             while p and p != '/':
                 FS.dirs.add(p)
                 p = p.rsplit('/', 1)[0] or '/'
         return ans
 
     def is_dir(self):
-        return self._p in FS.dirs
+        return self._r in FS.dirs
 
     def mkdir(self, mode=0o777, parents=False, exist_ok=False):
         ctx.cur.stats.peer_calls.bump('fs.mkdir')
-        if self._p in FS.dirs or self._p in FS.files:
-            if exist_ok and self._p in FS.dirs:
+        r = self._r
+        if r in FS.dirs or r in FS.files:
+            if exist_ok and r in FS.dirs:
                 return
             raise FileExistsError(17, 'File exists', self._p)
         par = self.parent
-        if par._p not in FS.dirs:
+        if par._r not in FS.dirs:
             if not parents:
                 raise FileNotFoundError(2, 'No such file or directory', self._p)
             par.mkdir(parents=True, exist_ok=True)
-        FS.dirs.add(self._p)
+        FS.dirs.add(r)
 
     def write_text(self, data, encoding=None, errors=None, newline=None):
         ctx.cur.stats.peer_calls.bump('fs.write_text')
-        if self.parent._p not in FS.dirs:
+        if self.parent._r not in FS.dirs:
             raise FileNotFoundError(2, 'No such file or directory', self._p)
-        if self._p in FS.dirs:
+        if self._r in FS.dirs:
             raise IsADirectoryError(21, 'Is a directory', self._p)
-        FS.files[self._p] = data.encode(encoding or 'utf-8')
+        FS.files[self._r] = data.encode(encoding or 'utf-8')
         return len(data)
 
     def write_bytes(self, data):
-        if self.parent._p not in FS.dirs:
+        if self.parent._r not in FS.dirs:
             raise FileNotFoundError(2, 'No such file or directory', self._p)
-        FS.files[self._p] = bytes(data)
+        FS.files[self._r] = bytes(data)
         return len(data)
 
     def read_bytes(self):
-        return FS.files[self._p]
+        return FS.files[self._r]
 
     def open(self, mode='r', buffering=-1, encoding=None, errors=None, newline=None):
         ctx.cur.stats.peer_calls.bump('fs.open')
         if 'w' in mode or 'a' in mode or '+' in mode:
             raise io.UnsupportedOperation('SimFS: only reading through open()')
-        if self._p not in FS.files:
+        if self._r not in FS.files:
             raise FileNotFoundError(2, 'No such file or directory', self._p)
-        data = FS.files[self._p]
+        data = FS.files[self._r]
         if 'b' in mode:
             return io.BytesIO(data)
         return io.StringIO(data.decode(encoding or 'utf-8'), newline=newline)
@@ -149,7 +177,7 @@ class _SimLzma:
     @staticmethod
     def open(filename, mode='rb', **kw):
         ctx.cur.stats.peer_calls.bump('fs.lzma-open')
-        p = _norm(str(filename))
+        p = _resolve(str(filename))
         if p not in FS.files:
             raise FileNotFoundError(2, 'No such file or directory', p)
         return _real_lzma.open(io.BytesIO(FS.files[p]), mode)
